@@ -863,3 +863,31 @@ if _os.environ.get("PYVC_WIP") != "1":
                                      E.prefixes.lookup.max_size == O.prefixes.lookup.max_size,
                                      E.datatypes.lookup.max_size == O.datatypes.lookup.max_size)
             return out
+
+
+@contract(f"{SE}:encode_namespace_declaration", serves=["C14", "C03"])
+class _encode_ns:
+    params = {"name": STR, "value": STR, "term_encoder": OBJ(GENC)}
+    result = ROWS
+    modifies = ["term_encoder.names", "term_encoder.prefixes"]
+
+    def requires(e): return wf_te(e.term_encoder)
+
+    def ensures(e):
+        E, O = e.term_encoder, e.old.term_encoder
+        items = list(e.result.items)
+        out = {"wf": wf_te(E)}
+        if not items or isinstance(items[-1], Seg):
+            out["declaration-row-last"] = False
+            return out
+        row = items[-1]
+        en = E.prefixes.lookup.max_size > 0
+        pk, nk = enc_keys(e.value, en)
+        d = row.namespace
+        out["declaration-row-last"] = which_is(row, "namespace")
+        out["same-prefix-label"] = d.name == e.name
+        out["entry-rows-first-and-account-for-table-changes"] = rows_account(O, E, items[:-1])
+        out["iri-ids-denote-the-namespace-iri"] = iri_ids_denote(O.prefixes, O.names, E.prefixes, E.names, pk, nk, en,
+                                                                 d.value.prefix_id, d.value.name_id)
+        out["concat"] = Ite(en, z3.Concat(pk, nk) == e.value, nk == e.value)
+        return out
